@@ -135,28 +135,31 @@ def specResponse (c : Ctx α ρ) (identity : Ava α) (required optional subj : L
   | .errorResponse => true
   | .raised _ => true
 
-/-! ### pinned: Code-of-Conduct categories release only what the requester requires
+/-! ### pinned facts about the category tables
 
 The category tables are regenerated from the source, so a table edit changes model and
-implementation alike.  One fact about them is therefore pinned here independently of the table
-flags: an item keyed by a category for which `coco` holds is treated as ONLY_REQUIRED whatever the
-table says.  Props/C10.lean proves (`C10_tables_coco_only_required`, by kernel evaluation of the
-regenerated table) that the bundled tables agree, and (`C10_coco_pinned`) that the model then
-meets this clause too. -/
+implementation alike.  Two facts about them are therefore pinned here independently of the table:
+an item keyed by a category for which `coco` holds (Code of Conduct) is ONLY_REQUIRED whatever
+the table says, and the always-released item (key `""`) releases nothing but attributes for which
+`keep` holds (eduPersonTargetedID).  Props/C10.lean proves by kernel evaluation of the regenerated
+table that the bundled tables are fixed points of `pinEntry` (`C10_tables_pinned`), and that the
+model then meets this clause too (`C10_pinned`). -/
 
 def keyMentions (coco : α → Bool) : CatKey α → Bool
   | .always => false
   | .single k => coco k
   | .all ks => ks.any coco
 
-def pinEntry (coco : α → Bool) (e : CatEntry α) : CatEntry α :=
-  { e with onlyRequired := e.onlyRequired || keyMentions coco e.key }
+def pinEntry (coco keep : α → Bool) (e : CatEntry α) : CatEntry α :=
+  match e.key with
+  | .always => { e with attrs := e.attrs.filter keep }
+  | k => { e with onlyRequired := e.onlyRequired || keyMentions coco k }
 
-def cocoPinned (coco : α → Bool) (c : Ctx α ρ) (required : List (ReqAttr α)) (out : Except Err (Ava α)) : Bool :=
+def pinnedOk (coco keep : α → Bool) (c : Ctx α ρ) (required : List (ReqAttr α)) (out : Except Err (Ava α)) : Bool :=
   match out, catsInEffect c with
   | .ok r, some entries =>
     r.all (fun p => decide (c.S.lower p.1 = c.S.empty) ||
-      allowedBy c.S c.spCats (reqNames c.S c.acs required) (entries.map (pinEntry coco)) (c.S.lower p.1))
+      allowedBy c.S c.spCats (reqNames c.S c.acs required) (entries.map (pinEntry coco keep)) (c.S.lower p.1))
   | _, _ => true
 
 end Release
